@@ -54,6 +54,11 @@ func (c *Ctx) setupClassInvariants() {
 		}
 	}
 	pos, used, buf := key("scanner.pos"), key("scanner.used"), key("scanner.buf")
+	// the invariant belongs to the struct that declares the buffer fields (the scanner, or the part
+	// of it they were grouped into); the separation on record is looked up under that type
+	if on, ok := c.fldOwner("scanner.buf").Type().(*types.Named); ok && c.fldOwner("scanner.pos") == c.fldOwner("scanner.buf") && c.fldOwner("scanner.used") == c.fldOwner("scanner.buf") {
+		T = on
+	}
 	ci := &classInv{id: "scanner-buffer", T: T, fields: []string{pos, used, buf}, isLen: map[string]bool{buf: true}}
 	ci.rels = []classInvRel{
 		{"pos >= 0", func(get func(string) Lin) Lin { return get(pos) }},
@@ -176,6 +181,12 @@ func classInvFacts(a string) []Lin {
 				return []Lin{atom(a), atom(a).neg()}
 			}
 			if _, isAlloc := bv.(*ssa.Alloc); isAlloc {
+				return nil
+			}
+			if freshPartOf(bv) { // ext_x5.go: a struct held by value in a fresh object is as fresh as the object
+				if ep == "entry" {
+					return []Lin{atom(a), atom(a).neg()}
+				}
 				return nil
 			}
 			var out []Lin
